@@ -112,6 +112,7 @@ def _task(arg):
     ex = values.Explorer(ws, cfg["k"], "value", cfg["max_len"], cap=cfg["cap"])
     seen = set()
     shapes = set()
+    payload_shapes = set()
     for cost, w, edits in ex:
         h = hash(values.freeze(w))
         if h in seen:
@@ -138,6 +139,15 @@ def _task(arg):
                 judge_input(ws, data, "prefix", list(fault), acc, (idx, 3 + cost, len(seen), m))
             acc.add("prefix_substitutions", m)
             shapes.add(shape)
+        # ill-formed UTF-8 inside string payloads, once per (field, payload width)
+        m = 0
+        pkey = tuple((p_, e - s_) for s_, e, k, p_ in lay.spans if k == "data")
+        if pkey not in payload_shapes:
+            payload_shapes.add(pkey)
+            for fault, data in streams.payload_substitutions(enc, lay):
+                m += 1
+                judge_input(ws, data, "payload", list(fault), acc, (idx, 4 + cost, len(seen), m))
+            acc.add("payload_substitutions", m)
         if cfg["pairs"] and cost == 0:
             m = 0
             for fault, data in streams.pair_overwrites(enc, crit[: cfg["pair_offsets"]]):
